@@ -29,7 +29,7 @@ def run(prog, rep):
     rep.rule("C01.pow-refuses-foreign-dims", "x**y with a dimension of y that x lacks raises")
     aspects = {("arith", "result"): "C01.operator-table", ("arith-scalar", "result"): "C01.operator-table",
                ("arith-unary", "result"): "C01.operator-table", ("arith", "raises"): "C01.pow-refuses-foreign-dims"}
-    for a in ("_prepare_other", "sum_values_to", "__add__", "__mul__", "__pow__", "__rtruediv__"):
+    for a in ("sum_values_to", "__add__", "__mul__", "__pow__", "__rtruediv__"):
         prog.method("FlodymArray", a)
     n = run_array_property(prog, rep, "C01", ["arith", "arith@uniform"], aspects)
     L = len(lists_over("abc" if rep.tier == "quick" else "abcd"))
